@@ -34,7 +34,7 @@ STUBS = ['ScriptedPeer per connection (counts open connections)',
 ASSUMPTIONS = []
 CELL_BUDGET_S = {'quick': 240, 'thorough': 2400}
 SAMPLE_P = 0.02
-MAX_WITNESSES = 6
+MAX_WITNESSES = 10
 MAX_DECISIONS = 60000
 
 
